@@ -758,7 +758,7 @@ func (g *Gen) evalCall(env *Env, x *ECall) Val {
 		if oldSt == nil {
 			oldSt = g.entry
 		}
-		return Val{T: bt, S: fmt.Sprintf("(and (>= %s %s) (< %s %s))", ref, g.heapGet(oldSt, "$alloc"), ref, g.heapGet(env.st, "$alloc"))}
+		return Val{T: bt, S: fmt.Sprintf("(and (>= %s %s) (< %s %s) (= (ref.root %s) %s))", ref, g.heapGet(oldSt, "$alloc"), ref, g.heapGet(env.st, "$alloc"), ref, ref)}
 	case "nonnil":
 		var parts []string
 		for _, a := range x.Args {
